@@ -37,6 +37,12 @@ type Case struct {
 	// NoAsk: dialogue variant of the device: `reload in 2` is answered directly with
 	// `Proceed with reload? [confirm]` (no `Save? [yes/no]` question)
 	NoAsk bool `json:"noask,omitempty"`
+	// Splits/DelayMs: the answer to a command line arrives in pieces (timings other than the fast device)
+	Splits  map[string][]int `json:"splits,omitempty"`
+	DelayMs int              `json:"delay_ms,omitempty"`
+	// Late: the cut isolates the second prompt of a two-prompt answer: modelled by lateDevice;
+	// timing dependent on the real side (either the late or the fast outcome is accepted)
+	Late bool `json:"late,omitempty"`
 }
 
 func bannerText(msg string) string { return "\n\n\n" + bell + "***\n***" + msg + "\n***\n" }
@@ -96,7 +102,7 @@ func runDialog(dir string, c *Case) Outcome {
 		"code/router":      strings.Join(c.Target, "\n") + "\n",
 		"code/router.info": `{"model":"IOS","name_list":["router"],"ip_list":["10.1.13.33"]}` + "\n",
 		"credentials":      "* admin secret\n",
-		".netspoc-approve": fmt.Sprintf("basedir = %s\ncheckbanner = NetSPoC\nsystemuser = admin\ntimeout = 1\nlogin_timeout = 1\n", dir),
+		".netspoc-approve": fmt.Sprintf("basedir = %s\ncheckbanner = NetSPoC\nsystemuser = admin\ntimeout = 2\nlogin_timeout = 5\n", dir),
 	})
 	replies := stdReplies()
 	replies["sh run"] = []string{"sh run\n" + strings.Join(c.Device, "\n") + "\n" + prompt}
@@ -112,7 +118,7 @@ func runDialog(dir string, c *Case) Outcome {
 	}
 	simLog := filepath.Join(dir, "simlog")
 	sc := simScript{Prompt: prompt, Preamble: "Enter Password:<!>banner motd  managed by NetSPoC\n" + prompt,
-		Replies: replies, Log: simLog, Slow: c.Slow}
+		Replies: replies, Log: simLog, Slow: c.Slow, Splits: c.Splits, DelayMs: c.DelayMs}
 	data, _ := json.Marshal(sc)
 	scFile := filepath.Join(dir, "script.json")
 	os.WriteFile(scFile, data, 0644)
